@@ -96,12 +96,27 @@ def gen_model(rng):
         prods.append({"terms": sorted(rng.sample(range(nb), k)),
                       "w": rng.choice([0.5, 1, 1.5, -0.5, -1])})
     return {"bins": names, "errs": errs, "card": card, "order": order, "lin": lin, "prods": prods,
+            "ge_first": rng.random() < 0.5,
             "gap": rng.choice([0, 0, 0.1, 0.5]), "limit": rng.choice([None, None, None, 1, 2, 3])}
+
+
+def tie_block():
+    """Systematic block of symmetric tie families (non-dyadic constants x sizes)."""
+    out = []
+    for c in (0.45, 0.15, 0.3, 0.35, 0.7, 1.1, 0.05, 2.45, 0.9, 1.35):
+        for nb, gef in ((3, False), (4, False), (4, True), (5, True)):
+            out.append({"ge_first": gef, "bins": [f"A_{j}_0" for j in range(nb)],
+                        "errs": [{"name": f"E_{j}", "coefs": {str(j): 1}, "target": c, "w": 1} for j in range(nb)],
+                        "card": [{"idx": list(range(nb)), "op": "==", "k": 1}], "order": [], "lin": {}, "prods": [],
+                        "gap": 0, "limit": None})
+    return out
 
 
 def gen_plan(rng, tier, i, seed):
     cfg = TIERS[tier]
     models = [gen_model(rng) for _ in range(cfg["models"])]
+    if i % 8 == 1:
+        models = tie_block()
     plan = {
         "segments": [
             {
@@ -286,10 +301,18 @@ def _build(m):
         E.append(v)
         coeffs[M.varName(v)] = e["w"]
         expr = M.quicksum(c * B[int(j)] for j, c in e["coefs"].items())
-        M.addConstr(expr + v <= e["target"], name=f"C_{e['name']}")
-        M.addConstr(expr + v >= e["target"], name=f"C_{e['name']}")
+        if m.get("ge_first"):
+            M.addConstr(expr + v >= e["target"], name=f"C_{e['name']}")
+            M.addConstr(expr + v <= e["target"], name=f"C_{e['name']}")
+        else:
+            M.addConstr(expr + v <= e["target"], name=f"C_{e['name']}")
+            M.addConstr(expr + v >= e["target"], name=f"C_{e['name']}")
     for ci, c in enumerate(m["card"]):
         expr = M.quicksum(B[j] for j in c["idx"])
+        if m.get("ge_first") and c["op"] == "==":
+            M.addConstr(expr >= c["k"], name=f"CARD_{ci}")
+            M.addConstr(expr <= c["k"], name=f"CARD_{ci}")
+            continue
         if c["op"] in ("==", "<="):
             M.addConstr(expr <= c["k"], name=f"CARD_{ci}")
         if c["op"] in ("==", ">="):
@@ -424,9 +447,9 @@ def _run_enum(m, table, mode, viol, unsound, stats, sample=None):
             ub = (1 + m["gap"]) * best
             ysets = [(set(y[2]), y[1]) for y in ys]
             for b, o in table.items():
-                if o > ub - TOL and abs(o - ub) <= 2 * TOL + 1e-5:
-                    continue  # boundary band
-                if o > ub:
+                # aldy's own rule keeps everything up to ub + 1e-5; exact ties with the optimum (gap 0)
+                # are therefore well inside.  Only (ub + 1e-6, ...] is left undecided.
+                if o > ub + 1e-6:
                     continue
                 act = _active_names(m, b, bnames, pnames, one)
                 if any(act == s for s, _ in ysets):
